@@ -1003,13 +1003,17 @@ static Member *struct_designator(Token **rest, Token *tok, Type *ty) {
 
   for (Member *mem = ty->members; mem; mem = mem->next) {
     // Anonymous struct member
-    if (mem->ty->kind == TY_STRUCT && !mem->name) {
+    if ((mem->ty->kind == TY_STRUCT || mem->ty->kind == TY_UNION) && !mem->name) {
       if (get_struct_member(mem->ty, tok)) {
         *rest = start;
         return mem;
       }
       continue;
     }
+
+    // Unnamed bit-field
+    if (!mem->name)
+      continue;
 
     // Regular struct member
     if (mem->name->len == tok->len && !strncmp(mem->name->loc, tok->loc, tok->len)) {
@@ -2744,6 +2748,10 @@ static Member *get_struct_member(Type *ty, Token *tok) {
         return mem;
       continue;
     }
+
+    // Unnamed bit-field
+    if (!mem->name)
+      continue;
 
     // Regular struct member
     if (mem->name->len == tok->len &&
